@@ -776,6 +776,46 @@ Proof.
       * split; [apply S'; auto; now apply peel_recv|auto].
 Qed.
 
+(* ---------- totality: with fuel > number of columns the decoder never runs out ---------- *)
+Lemma munk_le_N0 (s:st) : munk s <= N0.
+Proof.
+  unfold munk. rewrite <- (seq_length N0 0) at 2.
+  generalize (seq 0 N0). intros l. induction l as [|x l IH]; simpl; auto.
+  destruct (negb (known s x)); simpl; lia.
+Qed.
+
+Lemma step3_total_complete dec L (s:st) : WF s -> iscomp s -> exists s', step3 dec L s = Some s'.
+Proof.
+  intros W Hc. destruct L as [|row L']; [simpl; eauto|]. rewrite step3_cons.
+  pose proof (is_complete_spec s W) as Hs. destruct (is_complete s) as [b sx].
+  destruct Hs as (_ & _ & _ & _ & _ & _ & Hb). assert (b = true) by (apply Hb; auto). subst b. eauto.
+Qed.
+
+Lemma decode_total_good fuel (s:st) e v : Good s -> e < N0 -> N0 < fuel ->
+  exists s', decode sxor s0 fuel s e v = Some s'.
+Proof.
+  intros (W & HG) He Hf. destruct HG as [Hc|(HI & HN)].
+  - destruct fuel as [|f]; [lia|]. rewrite decode_unfold.
+    destruct (known s e) eqn:Hke; [eauto|]. cbv zeta. set (s1 := set_tab s e v).
+    assert (Hk1 : forall c, known s1 c = known s c || (c =? e)) by (intros c; apply known_set_tab; rewrite (wf_tab s W); auto).
+    assert (W1 : WF s1).
+    { destruct W as [Wr Wn Wrws Wunk Wenc Wct Wtab Wfnd Wcur]. constructor; simpl; rewrite ?upd_length; auto.
+      intros j Hj. rewrite Hk1. rewrite Wcur; auto. }
+    assert (Hc1 : iscomp s1) by (intros c Hcc; rewrite Hk1, Hc; auto).
+    destruct (r s1 <=? e).
+    + pose proof (is_complete_spec s1 W1) as Hs. destruct (is_complete s1) as [b sx].
+      destruct Hs as (_ & _ & _ & _ & _ & _ & Hb). assert (b = true) by (apply Hb; auto). subst b. simpl. eauto.
+    + simpl. unfold step2. fold (f2 e v).
+      assert (HL : forall i, In i (rows_with s1 e) -> i < R0).
+      { intros i Hi. apply (rows_with_spec s1 e i (wf_r s1 W1)) in Hi. tauto. }
+      destruct (step2_fold_wf e v (rows_with s1 e) s1 [] W1 HL) as (W2 & T2).
+      destruct (fold_left (f2 e v) (rows_with s1 e) (s1, [])) as [s2 L]. simpl in *.
+      apply step3_total_complete; [exact W2|]. apply (iscomp_tab_eq s1 s2); [exact T2|exact Hc1].
+  - destruct (known s e) eqn:Hke.
+    + destruct fuel as [|f]; [lia|]. rewrite decode_unfold, Hke. eauto.
+    + apply decode_total; auto; [apply Inv_PInv; auto|]. pose proof (munk_le_N0 s). lia.
+Qed.
+
 Definition run fuel (hist : list (nat * Sy)) : option st :=
   fold_left (fun os ev => match os with Some s => decode sxor s0 fuel s (fst ev) (snd ev) | None => None end)
             hist (Some (init Sy R0 N0 H0)).
@@ -853,6 +893,24 @@ Proof.
   split.
   - intros c Hc Hp. destruct HG as [Hcomp|(HI & HN)]; [apply Hcomp; auto|apply Hclosed; auto].
   - intros Hnc c Hp. destruct HG as [Hcomp|(HI & HN)]; [tauto|apply Hclosed; auto].
+Qed.
+
+Theorem run_total fuel (hist : list (nat * Sy)) :
+  N0 < fuel -> (forall ev, In ev hist -> fst ev < N0) -> exists s, run fuel hist = Some s.
+Proof.
+  intros Hf Hrange. unfold run.
+  set (Rc := fun e => In e (map fst hist)).
+  assert (Hgen : forall h sA, (forall ev, In ev h -> fst ev < N0 /\ Rc (fst ev)) -> Good sA -> Sound Rc sA ->
+     exists s1, fold_left (fun os ev => match os with Some s => decode sxor s0 fuel s (fst ev) (snd ev) | None => None end) h (Some sA) = Some s1).
+  { induction h as [|ev h IH]; intros sA Hh HG HS; simpl; [eauto|].
+    destruct (Hh ev (or_introl eq_refl)) as (Hr & HRc).
+    destruct (decode_total_good fuel sA (fst ev) (snd ev) HG Hr Hf) as (sB & Ed). rewrite Ed.
+    destruct (decode_good fuel sA sB (fst ev) (snd ev) Rc HG HS HRc Hr Ed) as (GB & SB & _ & _).
+    apply IH; auto. intros e He. apply Hh. now right. }
+  destruct init_good as (G0 & K0).
+  apply Hgen; auto.
+  - intros ev Hev. split; auto. unfold Rc. apply in_map. auto.
+  - intros c Hc. rewrite K0 in Hc. discriminate.
 Qed.
 
 End P.
